@@ -70,6 +70,16 @@ def _copies_same_field(fn, o, key, depth=0):
             if s['k'] == 'assign' and not s['lhs']['p'] and s['lhs']['l'] == p['l']]
     if len(defs) == 1 and defs[0]['k'] == 'use':
         return _copies_same_field(fn, defs[0]['a'], key, depth + 1)
+    if len(defs) == 1 and defs[0]['k'] == 'ref' and not defs[0].get('mut'):
+        rp = defs[0]['p']
+        if rp['p'] and all('deref' in e for e in rp['p']):
+            return _copies_same_field(fn, {'c': {'l': rp['l'], 'p': []}}, key, depth + 1)  # `&*r`
+        return _owner_field(fn, rp) == key  # `&self.f` handed to Clone::clone
+    if not defs:
+        # `Clone::clone(&self.f)` of a derived Clone
+        calls = [t for b, t in fn.calls() if not t['dest']['p'] and t['dest']['l'] == p['l']]
+        if len(calls) == 1 and calls[0].get('callee') in ('core::clone::Clone::clone', ) and calls[0]['args']:
+            return _copies_same_field(fn, calls[0]['args'][0], key, depth + 1)
     return False
 
 
